@@ -2860,6 +2860,27 @@ func (pc *PeerConnection) startRTP(
 	}
 }
 
+// unusedMediaSectionID returns the mid for a new application section: the
+// section's index, as before, unless another section already uses that value as
+// its mid (mids are not always equal to section positions, e.g. when the remote
+// peer chose them), in which case the next free number is taken.
+func unusedMediaSectionID(mediaSections []mediaSection) string {
+	for n := len(mediaSections); ; n++ {
+		id := strconv.Itoa(n)
+		used := false
+		for _, section := range mediaSections {
+			if section.id == id {
+				used = true
+
+				break
+			}
+		}
+		if !used {
+			return id
+		}
+	}
+}
+
 // generateUnmatchedSDP generates an SDP that doesn't take remote state into account.
 // This is used for the initial call for CreateOffer.
 //
@@ -2931,7 +2952,7 @@ func (pc *PeerConnection) generateUnmatchedSDP(
 
 		if pc.configuration.AlwaysNegotiateDataChannels || pc.sctpTransport.dataChannelsRequested != 0 {
 			mediaSections = append(mediaSections, mediaSection{
-				id:       strconv.Itoa(len(mediaSections)),
+				id:       unusedMediaSectionID(mediaSections),
 				data:     true,
 				sctpInit: localSctpInit,
 			})
@@ -3110,7 +3131,7 @@ func (pc *PeerConnection) generateMatchedSDP(
 					localSctpInit = pc.sctpTransport.GetSctpInit()
 				}
 				mediaSections = append(mediaSections, mediaSection{
-					id:       strconv.Itoa(len(mediaSections)),
+					id:       unusedMediaSectionID(mediaSections),
 					data:     true,
 					sctpInit: localSctpInit,
 				})
